@@ -75,9 +75,9 @@ func oracleConfig(c *Ctx) error {
 		if err != nil {
 			return nil // an earlier step already left an unreadable file and was reported then
 		}
-		// what one "key = value" line cannot hold (a line break; a key with '=' or with blanks at its ends) lies
+		// what one "key = value" line cannot hold (a line break; a key with '=', with a tab or with blanks at its ends) lies
 		// outside the stated domain: it may be refused (then nothing changes), or it has to round-trip like any other
-		outside := strings.ContainsAny(rest[0]+val, "\n\r") || strings.Contains(key, "=") || strings.TrimSpace(key) != key
+		outside := strings.ContainsAny(rest[0]+val, "\n\r") || strings.ContainsAny(key, "=\t") || strings.TrimSpace(key) != key
 		if outside && c.Res.Exit == 1 && !c.Res.Panic {
 			stats.Label("config:unrepresentable-argument-refused")
 			return unchangedAll(c, "config refused an argument")
@@ -203,7 +203,7 @@ var profConfig = register(&Profile{
 })
 
 var cfgSections = []string{"user", "core", "alias-x", "user", "core", "[x]", "x]"}
-var cfgKeys = []string{"name", "email", "editor", "name", "email", "[wip]", "[a", "b]", "#k", ";k", "email=old", " name", "k "}
+var cfgKeys = []string{"name", "email", "editor", "name", "email", "[wip]", "[a", "b]", "#k", ";k", "email=old", " name", "k ", "na\tme", "e\tmail"}
 
 func (g *G) configValue() string {
 	words := []string{"two\nlines", "the [boss]", "b]", "#2", ";x", "->", ">", "v", "a=b", "=", "x=y=z", "[sec]", "]", "[", "#c", "\"q\"", "'s'", "é", "日本", "a", "key = val", "1", "a.b", ";", "\\", "%s", "$HOME", "~", "<x>"}
